@@ -1,4 +1,7 @@
-"""C11 - MCMC continuation targets the same model and posterior as the sampler."""
+"""C11 - MCMC continuation targets the same model and posterior as the sampler.
+
+The rule is written over *sinks* (the arguments of to_unit, KeplerianOrbit, get_radial_velocity, pm.Normal('obs'), pm.Normal.dist,
+pm.Deterministic) with every local temporary substituted, so the names of intermediate variables play no role."""
 import ast
 
 from .. import astutil as A
@@ -7,99 +10,163 @@ from ..norm import canon, parse, dotted, equal, rat, NormError
 TJ = "thejoker.thejoker"
 KO = "thejoker._keplerian_orbit"
 Q = "TheJoker.setup_mcmc"
+CORE = {"P", "e", "omega", "M0", "K", "s"}
 
 
-def _pdict(fn):
-    """the parameter table p: name -> expression (from the dict literal and the p[name] = ... stores)"""
-    entries = {}
-    loops = {}
-    for s in A.walk_local(fn):
-        if isinstance(s, ast.Assign) and canon(s.targets[0]) == "p" and isinstance(s.value, ast.Dict):
-            for k, v in zip(s.value.keys, s.value.values):
-                if A.str_const(k):
-                    entries[A.str_const(k)] = (v, s)
-        if isinstance(s, ast.Assign) and isinstance(s.targets[0], ast.Subscript) and canon(s.targets[0].value) == "p":
-            lp = A.enclosing(s, (ast.For,))
-            if lp is not None:
-                loops[canon(lp.iter)] = (s, lp)
-    return entries, loops
+class Ctxt:
+    """the roles of setup_mcmc: D = merged data object, I = ids, pn = name of the converted-parameter table"""
+
+    def __init__(self, fn):
+        self.fn = fn
+        self.D = self.I = self.pn = None
+        self.prep = None
+        self.entries, self.loops = {}, []
+        for s in fn.body:
+            if isinstance(s, ast.Assign) and isinstance(s.value, ast.Call) and A.call_name(s.value) == "validate_prepare_data" and isinstance(s.targets[0], ast.Tuple) \
+                    and len(s.targets[0].elts) == 3 and all(isinstance(e, ast.Name) for e in s.targets[0].elts[:2]):
+                self.prep = s
+                self.D, self.I = s.targets[0].elts[0].id, s.targets[0].elts[1].id
+        for s in A.walk_local(fn):
+            if isinstance(s, ast.Assign) and isinstance(s.targets[0], ast.Name) and isinstance(s.value, ast.Dict) and {A.str_const(k) for k in s.value.keys if k is not None} & CORE:
+                self.pn = s.targets[0].id
+        if self.pn is None:
+            # p = {} filled by constant-key stores
+            for s in A.walk_local(fn):
+                if isinstance(s, ast.Assign) and isinstance(s.targets[0], ast.Subscript) and isinstance(s.targets[0].value, ast.Name) and A.str_const(s.targets[0].slice) in CORE \
+                        and "to_unit" in A.unparse(s.value):
+                    self.pn = s.targets[0].value.id
+        if self.pn:
+            for s in A.walk_local(fn):
+                if isinstance(s, ast.Assign) and isinstance(s.targets[0], ast.Name) and s.targets[0].id == self.pn and isinstance(s.value, ast.Dict):
+                    for k, v in zip(s.value.keys, s.value.values):
+                        if k is not None and A.str_const(k):
+                            self.entries[A.str_const(k)] = (v, s)
+                if isinstance(s, ast.Assign) and isinstance(s.targets[0], ast.Subscript) and canon(s.targets[0].value) == self.pn:
+                    k = A.str_const(s.targets[0].slice)
+                    if k:
+                        self.entries[k] = (s.value, s)
+                    else:
+                        lp = A.enclosing(s, (ast.For,))
+                        if lp is not None:
+                            self.loops.append((s, lp))
+
+    def inl(self, e, st):
+        return A.inline_temporaries(e, st, self.fn, depth=6, exclude={self.pn} if self.pn else ())
+
+    def spec(self, src):
+        """specification text with the role names filled in"""
+        return parse(src.replace("$D", self.D or "data").replace("$I", self.I or "ids").replace("$p", self.pn or "p"))
+
+    def names_source(self, e, st):
+        """which name table an expression iterates: ('offsets' | 'trend', slice-from) through validate_n_offsets / validate_poly_trend (..)[1]"""
+        lo = 0
+        if isinstance(e, ast.Subscript) and isinstance(e.slice, ast.Slice) and e.slice.upper is None and e.slice.step is None:
+            lo = A.const_value(e.slice.lower) if e.slice.lower is not None else 0
+            e = e.value
+        call = pos = None
+        if isinstance(e, ast.Name):
+            r = A.unpack_source(e.id, st)
+            if r:
+                call, pos = r
+        elif isinstance(e, ast.Subscript) and isinstance(e.value, ast.Call):
+            call, pos = e.value, A.const_value(e.slice)
+        if call is None or pos != 1 or len(call.args) != 1:
+            return None
+        cn = A.call_name(call)
+        if cn == "validate_n_offsets" and canon(call.args[0]) == canon(parse("self.prior.n_offsets")):
+            return ("offsets", lo)
+        if cn == "validate_poly_trend" and canon(call.args[0]) == canon(parse("self.prior.poly_trend")):
+            return ("trend", lo)
+        return None
 
 
-def check_unit(ctx, fn):
+def check_unit(ctx, fn, X):
     R = "C11-UNIT"
     ctx.rule(R, "every prior tensor that is combined with the unit-stripped data (times in days relative to t_ref, velocities and errors in the data unit, trend matrix in "
                 "day powers) first passes through units.to_unit to the matching unit: P -> day, omega / M0 -> rad, s / K / offsets -> data unit, v_i -> data unit / day**i; "
                 "the data arrays are stripped in those same units.")
-    entries, loops = _pdict(fn)
-    plain = [s for s in A.walk_local(fn) if isinstance(s, ast.Assign) and canon(s.targets[0]) == "p" and not isinstance(s.value, ast.Dict)]
-    if plain:
-        ctx.violate(R, plain[0], "prior tensors converted before use", "`p = %s`: prior variables are used in their declared units together with days / data-unit arrays" % A.unparse(plain[0].value), key="p-raw")
-        return
-    want = {"P": "u.day", "omega": "u.rad", "M0": "u.rad", "s": "RVU", "K": "RVU"}
-    rvu = [s for s in A.walk_local(fn) if isinstance(s, ast.Assign) and canon(s.targets[0]) == "rv_unit"]
-    ok_rvu = len(rvu) == 1 and canon(rvu[0].value) == canon(parse("data.rv.unit"))
-    ctx.check(R, rvu[0] if rvu else fn, "velocity unit of the model = unit of the stripped data", ok_rvu, "rv_unit = %s" % [A.unparse(s.value) for s in rvu], key="rv_unit")
+    s = X.prep
+    okv = s is not None and [canon(a) for a in s.value.args] == ["data", canon(parse("self.prior.poly_trend")), canon(parse("self.prior.n_offsets"))] and not s.value.keywords
+    ctx.check(R, s or fn, "data merged exactly as for the sampler", okv, "validate_prepare_data call changed or its result is not unpacked as (data, ids, _)", key="prepare")
+    if X.pn is None:
+        ctx.violate(R, fn, "prior tensors converted before use", "no table of converted prior variables: prior variables are used in their declared units together with days / data-unit arrays", key="p-raw")
+        return False
+    want = {"P": "u.day", "omega": "u.rad", "M0": "u.rad", "s": "$D.rv.unit", "K": "$D.rv.unit"}
     for name, un in want.items():
-        e = entries.get(name)
-        target = "rv_unit" if un == "RVU" else un
-        ok = e is not None and canon(e[0]) in (canon(parse("xu.to_unit(self.prior.pars['%s'], %s)" % (name, target))), canon(parse("xu.to_unit(self.prior.pars['%s'], %s)" % (name, target.replace("u.rad", "u.radian")))))
-        ctx.check(R, e[1] if e else fn, "p[%s] converted to %s" % (name, target), ok,
-                  "p['%s'] = %s: combined with %s without conversion" % (name, A.unparse(e[0])[:60] if e else "missing", "times in days" if name == "P" else "radian trigonometry" if name in ("omega", "M0") else "data-unit velocities"), key="p:" + name)
-    e = entries.get("e")
-    ctx.check(R, e[1] if e else fn, "p[e] is the eccentricity variable", e is not None and canon(e[0]) == canon(parse("self.prior.pars['e']")), "p['e'] = %s" % (A.unparse(e[0]) if e else "missing"), key="p:e", nontrivial=False)
-    off = loops.get("offset_names")
-    ok = off is not None and canon(off[0].value) == canon(parse("xu.to_unit(self.prior.pars[%s], rv_unit)" % off[1].target.id)) and canon(off[0].targets[0].slice) == off[1].target.id
-    ctx.check(R, off[0] if off else fn, "offset variables converted to the data unit", ok, "offset entries: %s" % (A.unparse(off[0]) if off else "missing"), key="p:offsets")
-    tr = loops.get(canon(parse("enumerate(vtrend_names)")))
-    ok = False
-    if tr is not None and isinstance(tr[1].target, ast.Tuple):
-        i, nm = tr[1].target.elts[0].id, tr[1].target.elts[1].id
-        ok = canon(tr[0].value) == canon(parse("xu.to_unit(self.prior.pars[%s], rv_unit / u.day ** %s)" % (nm, i))) and canon(tr[0].targets[0].slice) == nm
-    ctx.check(R, tr[0] if tr else fn, "trend variable v_i converted to data unit / day**i", ok, "trend entries: %s" % (A.unparse(tr[0]) if tr else "missing"), key="p:trend")
-    # name tables
-    on = [s for s in A.walk_local(fn) if isinstance(s, ast.Assign) and "offset_names" in A.unparse(s.targets[0])]
-    vn = [s for s in A.walk_local(fn) if isinstance(s, ast.Assign) and "vtrend_names" in A.unparse(s.targets[0])]
-    okn = len(on) == 1 and canon(on[0].value) == canon(parse("validate_n_offsets(self.prior.n_offsets)")) and len(vn) == 1 and canon(vn[0].value) == canon(parse("validate_poly_trend(self.prior.poly_trend)"))
-    ctx.check(R, fn, "offset / trend names come from the prior's n_offsets / poly_trend", okn, "name tables changed", key="names")
-    # stripped data
-    defs = {}
-    for s in fn.body:
-        if isinstance(s, ast.Assign) and canon(s.targets[0]) in ("x", "y", "err") and canon(s.targets[0]) not in defs:
-            defs[canon(s.targets[0])] = s
-    okx = "x" in defs and canon(defs["x"].value) == canon(parse("data._t_bmjd - data._t_ref_bmjd"))
-    ctx.check("C11-PHASE", defs.get("x", fn), "model times = BMJD - reference epoch of the (merged) data", okx,
-              "x = %s: the Keplerian phase is no longer measured from the data's reference epoch, while t_peri = P*M0/2pi and the trend matrix are" % (A.unparse(defs["x"].value) if "x" in defs else None), key="x")
-    oky = "y" in defs and canon(defs["y"].value) == canon(parse("data.rv.value")) and "err" in defs and canon(defs["err"].value) in (canon(parse("data.rv_err.to_value(data.rv.unit)")), canon(parse("data.rv_err.to(data.rv.unit).value")))
-    ctx.check(R, defs.get("err", fn), "y and err stripped in the data unit", oky, "y = %s, err = %s" % (A.unparse(defs["y"].value) if "y" in defs else None, A.unparse(defs["err"].value) if "err" in defs else None), key="yerr")
-    vp = [s for s in fn.body if isinstance(s, ast.Assign) and isinstance(s.value, ast.Call) and A.call_name(s.value) == "validate_prepare_data"]
-    okv = len(vp) == 1 and [canon(a) for a in vp[0].value.args] == ["data", "self.prior.poly_trend", "self.prior.n_offsets"] and isinstance(vp[0].targets[0], ast.Tuple) and [canon(e) for e in vp[0].targets[0].elts][:2] == ["data", "ids"]
-    ctx.check(R, vp[0] if vp else fn, "data merged exactly as for the sampler", okv, "validate_prepare_data call changed", key="prepare")
+        e = X.entries.get(name)
+        v = X.inl(e[0], e[1]) if e else None
+        ok = v is not None and canon(v) in (canon(X.spec("xu.to_unit(self.prior.pars['%s'], %s)" % (name, un))), canon(X.spec("xu.to_unit(self.prior.pars['%s'], %s)" % (name, un.replace("u.rad", "u.radian")))))
+        ctx.check(R, e[1] if e else fn, "p[%s] converted to %s" % (name, un.replace("$D", "data")), ok,
+                  "p['%s'] = %s: combined with %s without conversion" % (name, A.unparse(v)[:60] if v is not None else "missing", "times in days" if name == "P" else "radian trigonometry" if name in ("omega", "M0") else "data-unit velocities"), key="p:" + name)
+    e = X.entries.get("e")
+    ctx.check(R, e[1] if e else fn, "p[e] is the eccentricity variable", e is not None and canon(X.inl(e[0], e[1])) == canon(parse("self.prior.pars['e']")), "p['e'] = %s" % (A.unparse(e[0]) if e else "missing"), key="p:e", nontrivial=False)
+    got = {}
+    for st, lp in X.loops:
+        it = lp.iter
+        idx = None
+        tgt = lp.target
+        if isinstance(it, ast.Call) and A.call_name(it) == "enumerate" and len(it.args) == 1 and isinstance(tgt, ast.Tuple) and len(tgt.elts) == 2:
+            idx, tgt, it = tgt.elts[0], tgt.elts[1], it.args[0]
+        src = X.names_source(it, lp)
+        if src is None or not isinstance(tgt, ast.Name):
+            continue
+        got[src[0]] = (st, lp, tgt.id, idx.id if isinstance(idx, ast.Name) else None, src[1])
+    off = got.get("offsets")
+    ok = off is not None and off[4] == 0 and canon(X.inl(off[0].value, off[0])) == canon(X.spec("xu.to_unit(self.prior.pars[%s], $D.rv.unit)" % off[2])) and canon(off[0].targets[0].slice) == off[2]
+    ctx.check(R, off[0] if off else fn, "offset variables converted to the data unit", ok, "offset entries: %s" % (A.unparse(off[0]) if off else "missing (no loop over validate_n_offsets(self.prior.n_offsets)[1])"), key="p:offsets")
+    tr = got.get("trend")
+    ok = tr is not None and tr[3] is not None and tr[4] == 0 and canon(X.inl(tr[0].value, tr[0])) == canon(X.spec("xu.to_unit(self.prior.pars[%s], $D.rv.unit / u.day ** %s)" % (tr[2], tr[3]))) \
+        and canon(tr[0].targets[0].slice) == tr[2]
+    ctx.check(R, tr[0] if tr else fn, "trend variable v_i converted to data unit / day**i", ok, "trend entries: %s" % (A.unparse(tr[0]) if tr else "missing (no enumerate loop over validate_poly_trend(self.prior.poly_trend)[1])"), key="p:trend")
+    return True
 
 
-def check_phase(ctx, fn):
+def check_phase(ctx, fn, X):
     R = "C11-PHASE"
     ctx.rule(R, "t_peri = P*M0/(2 pi) (the sampler's phase convention, same expression as get_time_with_phase); KeplerianOrbit receives it as t_periastron (not t0) together with "
                 "period, ecc, omega; times are BMJD - t_ref; in _keplerian_orbit M = (t - t_periastron) * n and the K-branch of get_radial_velocity is "
                 "K (cos(omega) cos f - sin(omega) sin f + e cos(omega)) = K (cos(omega + f) + e cos omega), the kernel's formula.")
     det = [c for c in A.calls_in(fn) if A.call_name(c) == "pm.Deterministic" and A.str_const(c.args[0]) == "t_peri"]
-    ok = len(det) == 1 and equal(det[0].args[1], parse("p['P'] * p['M0'] / (2 * np.pi)"))
-    ctx.check(R, det[0] if det else fn, "t_peri = P M0 / (2 pi)", ok, "t_peri = %s" % (A.unparse(det[0].args[1]) if det else "missing"), key="t_peri")
+    tv = X.inl(det[0].args[1], A.enclosing_stmt(det[0])) if len(det) == 1 and len(det[0].args) > 1 else None
+    ok = tv is not None and equal(tv, X.spec("$p['P'] * $p['M0'] / (2 * np.pi)"))
+    ctx.check(R, det[0] if det else fn, "t_peri = P M0 / (2 pi)", ok, "t_peri = %s" % (A.unparse(tv) if tv is not None else "missing"), key="t_peri")
     ko = [c for c in A.calls_in(fn) if A.call_name(c) == "KeplerianOrbit"]
     if len(ko) != 1:
         ctx.violate(R, fn, "one KeplerianOrbit", "found %d" % len(ko), key="orbit")
         return
     c = ko[0]
-    want = {"period": "p['P']", "ecc": "p['e']", "omega": "p['omega']", "t_periastron": "model.named_vars['t_peri']"}
-    got = {k.arg: canon(k.value) for k in c.keywords}
-    ok = got == {k: canon(parse(v)) for k, v in want.items()} and not c.args
+    st = A.enclosing_stmt(c)
+    want = {"period": "$p['P']", "ecc": "$p['e']", "omega": "$p['omega']"}
+    got = {k.arg: canon(X.inl(k.value, st)) for k in c.keywords}
+    tp_ok = got.get("t_periastron") in (canon(parse("model.named_vars['t_peri']")), canon(parse("model['t_peri']")), canon(parse("model.t_peri")))
+    if not tp_ok and "t_periastron" in got:
+        # the Deterministic itself (bound to a name)
+        kv = [k.value for k in c.keywords if k.arg == "t_periastron"][0]
+        r = X.inl(kv, st)
+        tp_ok = isinstance(r, ast.Call) and A.call_name(r) == "pm.Deterministic" and A.str_const(r.args[0]) == "t_peri"
+    ok = {k: got.get(k) for k in want} == {k: canon(X.spec(v)) for k, v in want.items()} and tp_ok and set(got) == set(want) | {"t_periastron"} and not c.args
     why = "KeplerianOrbit(%s)" % ", ".join("%s=%s" % (k.arg, A.unparse(k.value)) for k in c.keywords)
     if "t0" in got:
         why += ": t_peri passed as the reference *transit* time t0"
     ctx.check(R, c, "orbit(period=P, ecc=e, omega=omega, t_periastron=t_peri)", ok, why, key="orbit-args")
     rv = [c2 for c2 in A.calls_in(fn) if A.last_attr(c2) == "get_radial_velocity"]
-    okr = len(rv) == 1 and canon(rv[0].args[0]) == "x" and canon(A.get_arg(rv[0], None, "K")) == canon(parse("p['K']")) and canon(rv[0].func.value) == "orbit"
-    ctx.check(R, rv[0] if rv else fn, "radial velocity evaluated at the model times with K = p[K]", okr, "call: %s" % (A.unparse(rv[0]) if rv else None), key="rv-call")
-    # library side
+    okr = False
+    okx = False
+    xv = None
+    if len(rv) == 1 and rv[0].args:
+        st = A.enclosing_stmt(rv[0])
+        recv = X.inl(rv[0].func.value, st)
+        xv = X.inl(rv[0].args[0], st)
+        kk = A.get_arg(rv[0], None, "K")
+        okr = isinstance(recv, ast.Call) and A.call_name(recv) == "KeplerianOrbit" and kk is not None and canon(X.inl(kk, st)) == canon(X.spec("$p['K']"))
+        okx = canon(xv) == canon(X.spec("$D._t_bmjd - $D._t_ref_bmjd"))
+    ctx.check(R, rv[0] if rv else fn, "model times = BMJD - reference epoch of the (merged) data", okx,
+              "model evaluated at `%s`: the Keplerian phase is no longer measured from the data's reference epoch, while t_peri = P*M0/2pi and the trend matrix are" % (A.unparse(xv) if xv is not None else None), key="x")
+    ctx.check(R, rv[0] if rv else fn, "radial velocity of that orbit with K = p[K]", okr, "call: %s" % (A.unparse(rv[0])[:100] if rv else None), key="rv-call")
+
+
+def check_lib(ctx):
+    R = "C11-PHASE"
     ki = ctx.prog.func(KO, "KeplerianOrbit.__init__", R)
     stores = {dotted(s.targets[0]): (s, canon(s.value)) for s in A.walk_local(ki) if isinstance(s, ast.Assign) and (dotted(s.targets[0]) or "") in ("self.tref", "self.n")}
     okn = "self.n" in stores and stores["self.n"][1] == canon(parse("2 * np.pi / self.period"))
@@ -129,114 +196,179 @@ def check_phase(ctx, fn):
     ctx.check(R, ki, "orbit: cos/sin of the given omega", okc, "cos_omega / sin_omega definitions changed", key="lib:omega", nontrivial=False)
 
 
-def check_trend(ctx, fn):
+
+
+def _parts(e):
+    if isinstance(e, ast.BinOp) and isinstance(e.op, ast.Add):
+        return _parts(e.left) + _parts(e.right)
+    return [e]
+
+
+def _obs(fn):
+    return [c for c in A.calls_in(fn) if A.call_name(c) == "pm.Normal" and c.args and A.str_const(c.args[0]) == "obs"]
+
+
+def check_trend(ctx, fn, X):
     R = "C11-TREND"
     ctx.rule(R, "the trend is M . [v0, offsets..., v1...] with M from the same get_trend_design_matrix(data, ids, poly_trend) the sampler uses and the parameter vector stacked "
-                "in the matrix's column order; model_rv = Keplerian term + trend.")
-    mm = [s for s in A.walk_local(fn) if isinstance(s, ast.Assign) and canon(s.targets[0]) == "M"]
-    okm = len(mm) == 1 and canon(mm[0].value) == canon(parse("get_trend_design_matrix(data, ids, self.prior.poly_trend)"))
-    ctx.check(R, mm[0] if mm else fn, "design matrix = get_trend_design_matrix(data, ids, poly_trend)", okm, "M = %s" % (A.unparse(mm[0].value) if mm else None), key="M")
-    vp = [s for s in A.walk_local(fn) if isinstance(s, ast.Assign) and canon(s.targets[0]) == "v_pars"]
-    def parts(e):
-        if isinstance(e, ast.BinOp) and isinstance(e.op, ast.Add):
-            return parts(e.left) + parts(e.right)
-        return [canon(e)]
-    okv = len(vp) == 1 and parts(vp[0].value) == parts(parse("[p['v0']] + [p[name] for name in offset_names] + [p[name] for name in vtrend_names[1:]]"))
-    why = "v_pars = %s" % (A.unparse(vp[0].value)[:120] if vp else None)
-    ctx.check(R, vp[0] if vp else fn, "parameter vector = [v0] + offsets + v_trend[1:]", okv, why + ": not the column order of the design matrix", key="v_pars")
-    flow = A.Flow(fn)
-    tr = [s for s in A.walk_local(fn) if isinstance(s, ast.Assign) and canon(s.targets[0]) == "trend"]
-    okt = len(tr) == 1 and canon(A.inline_temporaries(tr[0].value, tr[0], fn, only={"v_trend_vec"})) == canon(parse("pt.dot(M, pt.stack(v_pars, axis=0))"))
-    ctx.check(R, tr[0] if tr else fn, "trend = M . stack(v_pars)", okt, "trend = %s" % (A.unparse(tr[0].value) if tr else None), key="trend")
-    rm = [s for s in A.walk_local(fn) if isinstance(s, ast.Assign) and canon(s.targets[0]) == "rv_model"]
-    okr = len(rm) == 1 and equal(rm[0].value, parse("orbit.get_radial_velocity(x, K=p['K']) + trend"))
-    ctx.check(R, rm[0] if rm else fn, "model_rv = Keplerian term + trend", okr, "rv_model = %s" % (A.unparse(rm[0].value) if rm else None), key="rv_model")
+                "in the matrix's column order; model_rv (the mean of the observed node and the `model_rv` deterministic) = Keplerian term + trend.")
+    obs = _obs(fn)
+    if len(obs) != 1 or A.get_arg(obs[0], None, "mu") is None:
+        ctx.violate(R, fn, "observed node with a mean", "found %d `obs` nodes" % len(obs), key="obs")
+        return
+    o = obs[0]
+    st = A.enclosing_stmt(o)
+    mu = X.inl(A.get_arg(o, None, "mu"), st)
+    if isinstance(mu, ast.Call) and A.call_name(mu) == "pm.Deterministic" and len(mu.args) > 1:
+        mu = X.inl(mu.args[1], st)
+    ps = _parts(mu)
+    kep = [x for x in ps if isinstance(x, ast.Call) and A.last_attr(x) == "get_radial_velocity"]
+    dots = [x for x in ps if isinstance(x, ast.Call) and A.call_name(x) in ("pt.dot", "tt.dot", "pm.math.dot")]
+    okr = len(ps) == 2 and len(kep) == 1 and len(dots) == 1
+    ctx.check(R, o, "model_rv = Keplerian term + trend", okr, "mean of the observed node = %s" % A.unparse(mu)[:140], key="rv_model")
+    if dots:
+        d = dots[0]
+        okm = len(d.args) == 2 and canon(d.args[0]) == canon(X.spec("get_trend_design_matrix($D, $I, self.prior.poly_trend)"))
+        ctx.check(R, o, "design matrix = get_trend_design_matrix(data, ids, poly_trend)", okm, "M = %s" % (A.unparse(d.args[0])[:90] if d.args else None), key="M")
+        vec = d.args[1] if len(d.args) == 2 else None
+        okt = isinstance(vec, ast.Call) and A.call_name(vec) in ("pt.stack", "tt.stack") and vec.args and (A.get_arg(vec, 1, "axis") is None or A.const_value(A.get_arg(vec, 1, "axis")) == 0)
+        ctx.check(R, o, "trend = M . stack(v_pars)", bool(okt), "trend = %s" % A.unparse(d)[:120], key="trend")
+        okv = False
+        why = "no stacked parameter list"
+        if okt:
+            lst = _parts(vec.args[0])
+            why = "v_pars = %s" % A.unparse(vec.args[0])[:120]
+            kinds = []
+            for x in lst:
+                if isinstance(x, ast.List) and len(x.elts) == 1 and canon(x.elts[0]) == canon(X.spec("$p['v0']")):
+                    kinds.append("v0")
+                elif isinstance(x, ast.ListComp) and len(x.generators) == 1 and not x.generators[0].ifs and isinstance(x.generators[0].target, ast.Name) \
+                        and canon(x.elt) == canon(X.spec("$p[%s]" % x.generators[0].target.id)):
+                    src = X.names_source(x.generators[0].iter, st)
+                    kinds.append(src)
+                else:
+                    kinds.append(None)
+            okv = kinds == ["v0", ("offsets", 0), ("trend", 1)]
+        ctx.check(R, o, "parameter vector = [v0] + offsets + v_trend[1:]", okv, why + ": not the column order of the design matrix", key="v_pars")
     dm = [c for c in A.calls_in(fn) if A.call_name(c) == "pm.Deterministic" and A.str_const(c.args[0]) == "model_rv"]
-    ctx.check(R, dm[0] if dm else fn, "model_rv deterministic is that model", len(dm) == 1 and canon(dm[0].args[1]) == "rv_model", "model_rv = %s" % (A.unparse(dm[0].args[1]) if dm else None), key="det", nontrivial=False)
+    okd = len(dm) == 1 and len(dm[0].args) > 1 and canon(X.inl(dm[0].args[1], A.enclosing_stmt(dm[0]))) == canon(mu)
+    ctx.check(R, dm[0] if dm else fn, "model_rv deterministic is that model", okd, "model_rv = %s" % (A.unparse(dm[0].args[1]) if dm else None), key="det", nontrivial=False)
+    return mu
 
 
-def check_sigma(ctx, fn):
+def check_sigma(ctx, fn, X, mu):
     R = "C11-SIGMA"
-    ctx.rule(R, "the observed node is Normal(mu=model_rv, sigma=sqrt(err**2 + s**2), observed=y); the ln_likelihood diagnostic evaluates the same Gaussian (same sigma "
-                "expression, same y) summed over epochs; logp = model.logp(); ln_prior = model.logp() - ln_likelihood.")
-    flow = A.Flow(fn)
-    obs = [c for c in A.calls_in(fn) if A.call_name(c) == "pm.Normal" and c.args and A.str_const(c.args[0]) == "obs"]
+    ctx.rule(R, "the observed node is Normal(mu=model_rv, sigma=sqrt(err**2 + s**2), observed=y) with y, err stripped in the data unit; the ln_likelihood diagnostic evaluates the "
+                "same Gaussian (same sigma expression, same y) summed over epochs; logp = model.logp(); ln_prior = model.logp() - ln_likelihood.")
+    obs = _obs(fn)
     if len(obs) != 1:
         ctx.violate(R, fn, "observed node", "found %d `obs` nodes" % len(obs), key="obs")
         return
     o = obs[0]
     st = A.enclosing_stmt(o)
-    LOC = {"err", "y", "sigma", "sig", "yerr", "dist", "lnlike", "obs_sigma", "model_sigma"}
-    sig = A.inline_temporaries(A.get_arg(o, None, "sigma"), st, fn, only=LOC) if A.get_arg(o, None, "sigma") is not None else None
-    want = "pt.sqrt(data.rv_err.to_value(data.rv.unit)**2 + p['s']**2)"
-    oks = sig is not None and canon(sig) in (canon(parse(want)), canon(parse(want.replace("to_value(data.rv.unit)", "to(data.rv.unit).value"))))
+    sig = X.inl(A.get_arg(o, None, "sigma"), st) if A.get_arg(o, None, "sigma") is not None else None
+    want = "pt.sqrt($D.rv_err.to_value($D.rv.unit)**2 + $p['s']**2)"
+    oks = sig is not None and canon(sig) in (canon(X.spec(want)), canon(X.spec(want.replace("to_value($D.rv.unit)", "to($D.rv.unit).value"))))
     ctx.check(R, o, "obs sigma = sqrt(err**2 + s**2) in the data unit", oks, "sigma = %s" % (A.unparse(sig)[:100] if sig is not None else None), key="obs-sigma")
-    obsv = A.inline_temporaries(A.get_arg(o, None, "observed"), st, fn, only=LOC)
-    ctx.check(R, o, "obs mu = model_rv, observed = y", canon(A.get_arg(o, None, "mu")) == "rv_model" and canon(obsv) == canon(parse("data.rv.value")),
-              "mu = %s, observed = %s" % (A.unparse(A.get_arg(o, None, "mu")), A.unparse(obsv)[:40]), key="obs-mu")
+    ov = A.get_arg(o, None, "observed")
+    obsv = X.inl(ov, st) if ov is not None else None
+    ctx.check(R, o, "observed = y (data velocities in the data unit)", obsv is not None and canon(obsv) == canon(X.spec("$D.rv.value")),
+              "observed = %s" % (A.unparse(obsv)[:40] if obsv is not None else None), key="obs-mu")
     dd = [c for c in A.calls_in(fn) if A.call_name(c) == "pm.Normal.dist"]
     ll = [c for c in A.calls_in(fn) if A.call_name(c) == "pm.Deterministic" and A.str_const(c.args[0]) == "ln_likelihood"]
     if len(dd) != 1 or len(ll) != 1:
         ctx.violate(R, fn, "ln_likelihood diagnostic", "diagnostic missing", key="diag")
         return
     d = dd[0]
-    dsig = A.inline_temporaries(d.args[1] if len(d.args) > 1 else A.get_arg(d, None, "sigma"), A.enclosing_stmt(d), fn, only=LOC)
+    dsig = X.inl(d.args[1] if len(d.args) > 1 else A.get_arg(d, None, "sigma"), A.enclosing_stmt(d))
     same = sig is not None and canon(dsig) == canon(sig)
     ctx.check(R, d, "diagnostic sigma is the observed node's sigma", same,
               "diagnostic uses sigma = `%s` while the observed node uses `%s`: the stored ln_likelihood is not the Gaussian data term (jitter / units differ)" % (A.unparse(dsig)[:60], A.unparse(sig)[:60] if sig is not None else None), key="diag-sigma")
     dmu = d.args[0] if d.args else A.get_arg(d, None, "mu")
-    ctx.check(R, d, "diagnostic mean is model_rv", canon(dmu) in ("model.model_rv", "rv_model", canon(parse("model['model_rv']"))), "mean = %s" % A.unparse(dmu), key="diag-mu", nontrivial=False)
-    lv = A.inline_temporaries(ll[0].args[1], A.enclosing_stmt(ll[0]), fn, only=LOC)
+    dmr = X.inl(dmu, A.enclosing_stmt(d))
+    okdm = canon(dmu) in ("model.model_rv", canon(parse("model['model_rv']")), canon(parse("model.named_vars['model_rv']"))) or (mu is not None and canon(dmr) == canon(mu)) \
+        or (isinstance(dmr, ast.Call) and A.call_name(dmr) == "pm.Deterministic" and A.str_const(dmr.args[0]) == "model_rv")
+    ctx.check(R, d, "diagnostic mean is model_rv", okdm, "mean = %s" % A.unparse(dmu), key="diag-mu", nontrivial=False)
+    lv = X.inl(ll[0].args[1], A.enclosing_stmt(ll[0]))
     okl = False
     if isinstance(lv, ast.Call) and A.last_attr(lv) == "sum":
         inner = lv.func.value
-        if isinstance(inner, ast.Call) and A.call_name(inner) == "pm.logp" and canon(inner.args[1]) == canon(parse("data.rv.value")):
+        if isinstance(inner, ast.Call) and A.call_name(inner) == "pm.logp" and len(inner.args) == 2 and canon(inner.args[1]) == canon(X.spec("$D.rv.value")) \
+                and isinstance(inner.args[0], ast.Call) and A.call_name(inner.args[0]) == "pm.Normal.dist":
             okl = True
     ctx.check(R, ll[0], "diagnostic = sum over epochs of logp(dist, y)", okl, "ln_likelihood = %s" % A.unparse(lv)[:90], key="diag-sum")
     lp = [c for c in A.calls_in(fn) if A.call_name(c) == "pm.Deterministic" and A.str_const(c.args[0]) == "logp"]
-    ctx.check(R, lp[0] if lp else fn, "logp deterministic = model.logp()", len(lp) == 1 and canon(lp[0].args[1]) == canon(parse("model.logp()")), "logp = %s" % (A.unparse(lp[0].args[1]) if lp else None), key="logp", nontrivial=False)
+    ctx.check(R, lp[0] if lp else fn, "logp deterministic = model.logp()", len(lp) == 1 and canon(X.inl(lp[0].args[1], A.enclosing_stmt(lp[0]))) == canon(parse("model.logp()")), "logp = %s" % (A.unparse(lp[0].args[1]) if lp else None), key="logp", nontrivial=False)
     pr = [c for c in A.calls_in(fn) if A.call_name(c) == "pm.Deterministic" and A.str_const(c.args[0]) == "ln_prior"]
-    okp = len(pr) == 1 and canon(pr[0].args[1]) == canon(parse("model.logp() - lnlike"))
+    okp = False
+    if len(pr) == 1 and len(pr[0].args) > 1:
+        v = X.inl(pr[0].args[1], A.enclosing_stmt(pr[0]))
+        if isinstance(v, ast.BinOp) and isinstance(v.op, ast.Sub) and canon(v.left) == canon(parse("model.logp()")):
+            r = v.right
+            okp = (isinstance(r, ast.Call) and A.call_name(r) == "pm.Deterministic" and A.str_const(r.args[0]) == "ln_likelihood") or \
+                canon(r) in ("model.ln_likelihood", canon(parse("model['ln_likelihood']")), canon(parse("model.named_vars['ln_likelihood']"))) or canon(r) == canon(lv)
     ctx.check(R, pr[0] if pr else fn, "ln_prior = model.logp() - ln_likelihood", okp, "ln_prior = %s" % (A.unparse(pr[0].args[1]) if pr else None), key="ln_prior")
     # obs precedes logp so that the data term is included
     if lp:
         ctx.check(R, lp[0], "logp includes the data term (obs defined first)", o.lineno < lp[0].lineno, "logp is taken before obs exists", key="logp-order", nontrivial=False)
 
 
-def check_init(ctx, fn):
+def check_init(ctx, fn, X):
     R = "C11-INIT"
-    ctx.rule(R, "mcmc_init[name] = chosen_sample[name].to_value(unit of prior.pars[name]) for every name in prior.par_names; with several samples the chosen sample is median_period().")
-    lp = [l for l in A.walk_local(fn) if isinstance(l, ast.For) and canon(l.iter) == canon(parse("self.prior.par_names"))]
+    ctx.rule(R, "the returned initial point maps every name in prior.par_names to chosen_sample[name].to_value(unit of prior.pars[name]); with several samples the chosen sample is median_period().")
+    flow = A.Flow(fn)
+    lp = [l for l in A.walk_local(fn) if isinstance(l, ast.For) and canon(l.iter) == canon(parse("self.prior.par_names")) and isinstance(l.target, ast.Name)]
     ok = False
+    okm = False
     why = "no loop over self.prior.par_names"
+    whym = why
+    dest = None
     if len(lp) == 1:
         nm = lp[0].target.id
-        st = [s for s in lp[0].body if isinstance(s, ast.Assign) and isinstance(s.targets[0], ast.Subscript) and canon(s.targets[0].value) == "mcmc_init"]
+        st = [s for s in lp[0].body if isinstance(s, ast.Assign) and isinstance(s.targets[0], ast.Subscript) and isinstance(s.targets[0].value, ast.Name) and canon(s.targets[0].slice) == nm]
         if len(st) == 1:
-            v = A.inline_temporaries(st[0].value, st[0], fn, only={"unit"})
-            ok = canon(st[0].targets[0].slice) == nm and canon(v) in (canon(parse("MAP_sample[%s].to_value(getattr(self.prior.pars[%s], xu.UNIT_ATTR_NAME))" % (nm, nm))),
-                                                                    canon(parse("MAP_sample[%s].to(getattr(self.prior.pars[%s], xu.UNIT_ATTR_NAME)).value" % (nm, nm))))
-            why = "mcmc_init[%s] = %s" % (A.unparse(st[0].targets[0].slice), A.unparse(v)[:90])
+            dest = st[0].targets[0].value.id
+            v = A.inline_temporaries(st[0].value, st[0], fn)
+            r = flow.resolve(v, at=st[0])
+            cases = A.ifexp_terms(r)
+            forms = ("%s[" + nm + "].to_value(getattr(self.prior.pars[" + nm + "], xu.UNIT_ATTR_NAME))", "%s[" + nm + "].to(getattr(self.prior.pars[" + nm + "], xu.UNIT_ATTR_NAME)).value")
+            many = A.nnf_of_src("len(joker_samples) > 1")
+            seen = {}
+            ok = bool(cases)
+            for terms, leaf in cases:
+                c = canon(leaf)
+                if c in [canon(parse(f % "joker_samples.median_period()")) for f in forms]:
+                    seen[True] = terms
+                elif c in [canon(parse(f % "joker_samples")) for f in forms]:
+                    seen[False] = terms
+                else:
+                    ok = False
+            why = "initial value = %s" % A.unparse(r)[:140]
+            few = A.nnf(parse("len(joker_samples) > 1"), True)
+            okm = ok and set(seen) == {True, False} and A.nnf_implies(A.conj(seen[True]), many) and A.nnf_implies(A.conj(seen[False]), few)
+            whym = "chosen sample: %s" % {("median_period()" if k else "joker_samples"): A.term_strings(v) for k, v in seen.items()}
     ctx.check(R, lp[0] if lp else fn, "initial point expressed in the prior's units, for every parameter", ok, why, key="init")
-    ms = [s for s in A.walk_local(fn) if isinstance(s, ast.Assign) and canon(s.targets[0]) == "MAP_sample"]
-    vals = {}
-    for s in ms:
-        g = [(canon(t), pol) for t, pol in A.guards_of(s)]
-        vals[(canon(parse("len(joker_samples) > 1")), True) in g] = canon(s.value)
-    okm = vals == {True: canon(parse("joker_samples.median_period()")), False: "joker_samples"}
-    ctx.check(R, ms[0] if ms else fn, "several samples -> the median-period sample", okm, "chosen sample: %s" % vals, key="median")
-    ty = [s for s in A.walk_local(fn) if isinstance(s, ast.If) and A.always_raises(s.body) and "isinstance(joker_samples, JokerSamples)" in A.unparse(s.test)]
+    ctx.check(R, lp[0] if lp else fn, "several samples -> the median-period sample", okm, whym, key="median")
+    ty = A.find_raising_guard(fn, A.nnf_of_src("not isinstance(joker_samples, JokerSamples)"))
     ctx.check(R, fn, "non-JokerSamples input raises", bool(ty), "type guard missing", key="type", nontrivial=False)
-    rets = [s for s in A.walk_local(fn) if isinstance(s, ast.Return)]
-    ctx.check(R, fn, "returns the initial point", bool(rets) and all(canon(s.value) == "mcmc_init" for s in rets), "returns %s" % [A.unparse(s.value) for s in rets], key="ret", nontrivial=False)
+    okret = False
+    if dest:
+        okret = bool(flow.returns)
+        for v, s in flow.returns:
+            base = s.value
+            # the returned object is the table (possibly rebuilt from its own items / passed through custom_func)
+            okret = okret and isinstance(base, ast.Name) and base.id == dest
+    ctx.check(R, fn, "returns the initial point", okret, "returns %s" % [A.unparse(s.value) for _, s in flow.returns], key="ret", nontrivial=False)
 
 
 def run(ctx):
     fn = ctx.prog.func(TJ, Q, "C11")
-    check_unit(ctx, fn)
-    check_phase(ctx, fn)
-    check_trend(ctx, fn)
-    check_sigma(ctx, fn)
-    check_init(ctx, fn)
+    X = Ctxt(fn)
+    if check_unit(ctx, fn, X):
+        check_phase(ctx, fn, X)
+        mu = check_trend(ctx, fn, X)
+        check_sigma(ctx, fn, X, mu)
+    check_lib(ctx)
+    check_init(ctx, fn, X)
     ctx.assume("twobody / the kernel evaluate K (cos(omega + f) + e cos omega) with M = 2 pi (t - t_ref)/P - M0 (library summary); pymc's Normal logp is the Gaussian log-density")
     ctx.assume("units.to_unit multiplies by base.to(target) (thejoker/units.py, checked by C07-TOUNIT)")
